@@ -16,11 +16,12 @@ search:      the property on the real code only: per-step partition, dead-hold-n
 import json
 import numpy as np
 from harness.props import c13_probe as P
+from harness.props import c13_simcore
 
 PROP = 'C13'
-GENERATED = ['Disease_' + n for n in P.DISEASES] + ['Treat_syphilis']
+GENERATED = ['Disease_' + n for n in P.DISEASES] + ['Treat_syphilis', 'PhaseOrder']
 DRIVER = 'Drivers/C13.lean'
-DRIVER_MODULES = ['StarsimModel.Generated.Disease_' + n for n in P.DISEASES] + ['StarsimModel.Generated.Treat_syphilis', 'StarsimModel.Model.Proto']
+DRIVER_MODULES = ['StarsimModel.Generated.Disease_' + n for n in P.DISEASES] + ['StarsimModel.Generated.Treat_syphilis', 'StarsimModel.Model.Proto', 'StarsimModel.Model.SimCore']
 RULE = ('generated sims for each of the 8 built-in compartmental diseases, with and without demographics (Deaths, Pregnancy), plus '
         'co-circulating pairs; one case = one distinct (disease, method, flag vector before, observed guard valuation) of a real '
         'method call, compared with the generated Lean per-agent function; non-trivial = the method changed at least one flag of that agent')
@@ -95,6 +96,7 @@ def plan(ctx, per_disease_quick, per_disease_thorough, small=True):
 # correspondence
 
 def correspond(ctx):
+    c13_simcore.correspond(ctx)      # whole runs of the composed step model (Model/SimCore.lean)
     facts = get_facts(ctx)
     missing = [n for n in P.DISEASES if n not in facts]
     if missing:
@@ -753,6 +755,8 @@ def search_zoo(ctx):
 
 
 def replay(ctx, data):
+    if data.get('kind') == 'simcore':
+        return c13_simcore.replay(ctx, data)
     if data.get('kind') != 'sim':
         return False
     fails, _ = oracle_run(data['cfg'])
